@@ -46,6 +46,20 @@ pub fn knobs_for(mode: &str, idx: u64, a: &Args, r: &mut Rng) -> Knobs {
             k.wild_ext = r.chance(1, 3);
             k.big_points = r.chance(1, 10);
         }
+        "c18" => {
+            // extension attributes over all accepted names / namespaces, also named like standard ones
+            k.ext_std_names = true;
+            k.wild_ext = true;
+            k.big_points = false;
+            k.max_items = 3;
+        }
+        "c12w" => {
+            // writer direction of the C12 grid: width = idx mod 65, value set = (idx / 65) mod 5
+            k.width_focus = Some((idx % 65) as usize);
+            k.max_items = 2;
+            k.max_records = 10;
+            k.big_points = (idx / 325) % 8 == 7; // a sub-grid crosses packet boundaries
+        }
         "c14" => {
             k.bounds_focus = true;
             k.nan_ok = false;
@@ -444,6 +458,8 @@ pub fn run(a: &Args, rep: &mut Reporter) {
         "c10" => "C10",
         "c14" => "C14",
         "c02" => "C02",
+        "c12w" => "C12",
+        "c18" => "C18",
         _ => "C01",
     };
     let filesdir = a.get("filesdir").map(|s| s.to_string());
@@ -461,6 +477,51 @@ pub fn run(a: &Args, rep: &mut Reporter) {
         }
         if mode == "c10" {
             hostile_mutate(&mut scene, &mut r, &mut cover);
+        }
+        if mode == "c12w" {
+            let w = (idx % 65) as usize;
+            let vset = (idx / 65) % 5;
+            let mut any = false;
+            for it in scene.items.iter_mut() {
+                if let Item::Pc(pc) = it {
+                    if pc.points.len() < 9 {
+                        let proto = pc.prototype.clone();
+                        pc.points = (0..(9 + r.usize(40))).map(|_| gen_point(&mut r, &proto, true)).collect();
+                    }
+                    for (ri, rec) in pc.prototype.clone().iter().enumerate() {
+                        let (min, max, scaled) = match &rec.data_type {
+                            RecordDataType::Integer { min, max } => (*min, *max, false),
+                            RecordDataType::ScaledInteger { min, max, .. } => (*min, *max, true),
+                            _ => continue,
+                        };
+                        if dt_bits(&rec.data_type) != w {
+                            continue;
+                        }
+                        any = true;
+                        let range = (max as i128 - min as i128) as u128;
+                        for (pi, p) in pc.points.iter_mut().enumerate() {
+                            let off: u128 = match vset {
+                                0 => 0,
+                                1 => range,
+                                2 => if pi % 2 == 0 { 0 } else { range },
+                                3 => {
+                                    // walking one (clipped to the range)
+                                    let b = 1u128 << (pi % w.max(1));
+                                    if b <= range { b } else { range }
+                                }
+                                _ => (r.u64() as u128) % (range + 1),
+                            };
+                            let v = (min as i128 + off as i128) as i64;
+                            p[ri] = if scaled { RecordValue::ScaledInteger(v) } else { RecordValue::Integer(v) };
+                            cover.hit_num("width_phase", (w as u64) * 8 + ((pi * w) % 8) as u64);
+                        }
+                    }
+                }
+            }
+            if any {
+                cover.hit_num("grid_cell", idx % 325);
+                cover.hit(&format!("valueset:{}", ["all-min", "all-max", "alternating", "walking-one", "random"][vset as usize]));
+            }
         }
         if mode == "c14" {
             for it in scene.items.iter_mut() {
@@ -530,7 +591,21 @@ pub fn run(a: &Args, rep: &mut Reporter) {
                 cover.hit_num("shape", crate::rng::hash_str(&crate::obs::proto_str(&pc.prototype)) % 1_000_000_007);
             }
             let mut ctx = Ctx { primary, hostile: mode == "c10", cover: &mut cover, stats: &mut stats };
-            let vs = verify_readback(&bytes, &scene, &run, &mut ctx);
+            let mut vs = verify_readback(&bytes, &scene, &run, &mut ctx);
+            if mode == "c18" {
+                // everything the read-back oracle finds in this mode is about extension attributes
+                // disturbing (or being disturbed by) standard content
+                for v in vs.iter_mut() {
+                    v.prop = "C18";
+                }
+                for pc in &run.pcs {
+                    for rec in &pc.prototype {
+                        if let RecordName::Unknown { name, .. } = &rec.name {
+                            cover.hit(if ["cartesianX", "intensity", "colorRed", "rowIndex", "timeStamp", "guid", "points", "prototype"].contains(&name.as_str()) { "ext-attr:standard-name" } else { "ext-attr:other-name" });
+                        }
+                    }
+                }
+            }
             rep.viols(idx, &vs);
             // section start residues actually reached (from the reader's descriptors)
             if let Ok(Ok(rd)) = guarded(|| E57Reader::new(std::io::Cursor::new(bytes.clone()))) {
